@@ -153,7 +153,29 @@ def case_strategy(draw):
     # pre-built files handed in by the caller are written by the CALLER (here: the harness, untraced): their durability is not the
     # library's to establish, so that operation is replaced by an ordinary append in this check
     steps = [({"op": "append", "n": 2} if s_["op"] == "append_twins" else s_) for s_ in steps]
-    return {"kind": "trace", "steps": [{"op": "append", "n": 1}] + steps}
+    pre = [{"op": "append", "n": 1}]
+    if draw(st.integers(0, 3)) == 0:
+        # a short metadata log: superseded metadata files are removed soon after (whatever an older pointer names goes away quickly)
+        from ..hist import PREVMAX
+
+        pre = [{"op": "set_prop", "key": PREVMAX, "value": draw(st.sampled_from(["1", "2"]))}] + pre
+    if draw(st.integers(0, 2)) == 0:
+        # collections in between and at the end (grace 0): files only older versions name are REMOVED while the history goes on
+        steps = [x for s_ in steps for x in ([s_, {"op": "gc", "grace_ms": 0}] if draw(st.integers(0, 3)) == 0 else [s_])]
+        steps += draw(st.sampled_from([[{"op": "expire", "cut": ("future", 0)}], [{"op": "delete_files", "pick": [0], "slash": False, "ghost": False}], []])) + [{"op": "gc", "grace_ms": 0}]
+    return {"kind": "trace", "steps": pre + steps}
+
+
+def _flip_info(root, info, content):
+    """What the pointer names at the moment of its rename, read from the real tree while everything is still there."""
+    info = dict(info or {}, pointer_content=content)
+    try:
+        nm = content.decode("utf-8", "replace").strip()
+        v = read_view(DirFS(root), metadata_file=nm, rows=False)
+        info["reach"] = sorted(reachable_files(v) | {"metadata/" + nm})
+    except Exception:
+        pass
+    return info
 
 
 def _evaluate(full, root, out, labels, preexisting=()):
@@ -173,6 +195,9 @@ def _evaluate(full, root, out, labels, preexisting=()):
 
     events = [e[:6] for e in full]
     ops = [e[6] for e in full]
+    for e in events:
+        if isinstance(e[5], dict) and e[5].get("reach") is not None and e[5].get("pointer_content") is not None:
+            reach_cache.setdefault(e[5]["pointer_content"].decode("utf-8", "replace").strip(), set(e[5]["reach"]))
     in_commit_since = None
     reported = set()
     last_root_sync_flip = 0
@@ -192,7 +217,21 @@ def _evaluate(full, root, out, labels, preexisting=()):
             fidx, content, ino, ino_state = flips[-1]
             if ino_state["d"] != ino_state["v"]:
                 out["violations"].append(("pointer-content-not-flushed", f"op {ops[idx]}: the pointer's temp file was renamed before its content was fsynced"))
-        # pointer versions that may be on disk now: the durable one and every rename since (adversarial persistence)
+        # a pointer rename is on disk for certain only once the table directory has been fsynced after it: until then a power loss may
+        # bring back the last durable pointer - or any rename in between. Nothing such a pointer names may have been removed meanwhile.
+        if flips and (is_flip or name in ("os.remove", "os.unlink")):
+            dur_ino = m.dur.get(HINT)
+            k0 = max([k for k, fl in enumerate(flips) if fl[2] == dur_ino], default=0)
+            for fidx, content, ino, _st in flips[k0:-1]:
+                nm = content.decode("utf-8", "replace").strip()
+                gone = [f for f in ["metadata/" + nm] + sorted((reach(content)[1] or set()) - {"metadata/" + nm}) if f not in m.vol]
+                if gone and ("stale", gone[0].split("/")[0]) not in reported:
+                    reported.add(("stale", gone[0].split("/")[0]))
+                    labels["stale-pointer-candidate"] += 1
+                    out["violations"].append((f"pointer-rename-not-durable/older-pointer-names-removed-file/{'metadata' if gone[0].startswith('metadata/v') else 'other'}",
+                                              f"op {ops[idx]}: the table directory was not fsynced after the pointer rename(s) since {nm}; a power loss now can bring that pointer back, "
+                                              f"but {gone[0]} which it names has been removed"))
+        # pointer versions evaluated for the durability of what they name: the newest one, at its flip
         cands = flips[-1:] if flips else []
         for fidx, content, ino, _st in cands:
             name_, rs = reach(content)
@@ -229,7 +268,7 @@ def check_case(case):
             if phase == "after" and name == "os.replace" and target == HINT:
                 try:
                     with open(os.path.join(root, HINT), "rb") as fh:
-                        info = dict(info or {}, pointer_content=fh.read())
+                        info = _flip_info(root, info, fh.read())
                 except OSError:
                     pass
             full.append((n, phase, layer, name, target, info, cur_op[0]))
@@ -313,7 +352,7 @@ def check_fsync_fault(case):
             if phase == "after" and name == "os.replace" and target == HINT:
                 try:
                     with open(os.path.join(root, HINT), "rb") as fh:
-                        info = dict(info or {}, pointer_content=fh.read())
+                        info = _flip_info(root, info, fh.read())
                 except OSError:
                     pass
             full.append((n, phase, layer, name, target, info, state["op"]))
@@ -412,7 +451,7 @@ def check_conc(case):
             if phase == "after" and name == "os.replace" and target == HINT:
                 try:
                     with open(os.path.join(root, HINT), "rb") as fh:
-                        info = dict(info or {}, pointer_content=fh.read())
+                        info = _flip_info(root, info, fh.read())
                 except OSError:
                     pass
             full.append((sch.global_steps, phase, layer, name, target, info, f"{case['ops'][a.idx] if a.idx < len(case['ops']) else 'late-append'}"))
